@@ -14,11 +14,63 @@ from .c19_norm import normalise
 DUNDER_OP = {'__lt__': 'lt', '__gt__': 'gt', '__le__': 'le', '__ge__': 'ge'}
 
 
-def one_core(ctx: RuleCtx, mod: Module, cls: str) -> T.Optional[str]:
-    """__lt__/__gt__/__le__/__ge__ delegate to one core method with operator.lt/gt/le/ge;
-    __eq__/__ne__/__hash__ read the same single field.  Returns the core method name."""
+class CoreInfo(T.NamedTuple):
+    name: str                 # method name (as written in the class) or module-level function name
+    fn: T.Any                 # the FunctionDef
+    is_method: bool
+    ours: str                 # parameter that receives (a part of) self
+    theirs: str               # parameter that receives (a part of) the other operand
+    comparator: str           # parameter that receives operator.xx
+    ours_actual: str          # what the dunders pass for `ours`   ('self' or e.g. 'self._v')
+    theirs_actual: str        # what the dunders pass for `theirs` ('ARG1' or e.g. 'ARG1._v'; ARG1 = the other operand)
+
+
+def _bind_core_call(mod: Module, cls: str, call: ast.Call) -> T.Optional[T.Tuple[str, T.Any, bool, T.Dict[str, ast.AST]]]:
+    """Resolve the callee of a dunder's comparing call and bind the arguments to its parameters by signature.
+    Forms: `self.m(..)`, `Cls.m(self, ..)`, module-level `f(..)` (E2 of the catalogue).  None: not such a call."""
     meths = mod.methods(cls)
-    cores: T.Set[str] = set()
+    f = call.func
+    recv: T.Optional[ast.AST] = None
+    if isinstance(f, ast.Attribute) and attr_chain(f.value) == 'self':
+        name = f.attr if f.attr in meths else f'_{cls}{f.attr}' if f'_{cls}{f.attr}' in meths else None
+        if name is None:
+            return None
+        fn, is_method, recv = meths[name], True, f.value
+        shown = f.attr
+    elif isinstance(f, ast.Attribute) and attr_chain(f.value) == cls and (f.attr in meths or f'_{cls}{f.attr}' in meths):
+        fn, is_method = meths[f.attr if f.attr in meths else f'_{cls}{f.attr}'], True
+        shown = f.attr
+    elif isinstance(f, ast.Name) and mod.has_func(f.id):
+        fn, is_method, shown = mod.func(f.id), False, f.id
+    else:
+        return None
+    a = fn.args
+    if a.vararg or a.kwarg or any(isinstance(x, ast.Starred) for x in call.args) or any(k.arg is None for k in call.keywords):
+        return None
+    params = [p.arg for p in a.posonlyargs + a.args]
+    bound: T.Dict[str, ast.AST] = {}
+    pos = list(call.args)
+    if recv is not None:
+        bound[params[0]] = recv
+        names = params[1:]
+    else:
+        names = params
+    if len(pos) > len(names):
+        return None
+    for pn, x in zip(names, pos):
+        bound[pn] = x
+    for k in call.keywords:
+        if k.arg in bound or k.arg not in params + [p.arg for p in a.kwonlyargs]:
+            return None
+        bound[k.arg] = k.value          # type: ignore[index]
+    return shown, fn, is_method, bound
+
+
+def core_info(mod: Module, cls: str, ctx: T.Optional[RuleCtx] = None) -> CoreInfo:
+    """The comparison core of `cls`, found by role: what the four ordering dunders call with operator.lt/gt/le/ge.
+    With `ctx`, the obligations of C19.R1 (right operator per dunder, other operand handed over, one core) are emitted."""
+    meths = mod.methods(cls)
+    infos: T.Dict[str, CoreInfo] = {}
     for dunder, op in DUNDER_OP.items():
         if dunder not in meths:
             raise Undecided(f'{cls}.{dunder} not defined (total_ordering or inherited?)')
@@ -26,37 +78,58 @@ def one_core(ctx: RuleCtx, mod: Module, cls: str) -> T.Optional[str]:
         tab = tables.extract(normalise(fn), inline=False, name=f'{cls}.{dunder}')
         good = 0
         for r in tab.rows:
-            isinst = [(a, v) for a, v in r.conds.items() if a.kind == 'isinstance' and a.args[0] == 'ARG1']
             if r.outcome == ('return', 'NotImplemented'):
                 continue
             if r.outcome[0] != 'return':
                 if r.outcome[0] == 'raise':
                     raise Undecided(f'{cls}.{dunder}: a row raises {r.outcome}')
-                ctx.violation(mod, f'{cls}.{dunder}', r.path.events[-1].node if r.path.events else fn, f'{dunder} can leave by {r.outcome} (returns None instead of a verdict)')
+                if ctx is not None:
+                    ctx.violation(mod, f'{cls}.{dunder}', r.path.events[-1].node if r.path.events else fn, f'{dunder} can leave by {r.outcome} (returns None instead of a verdict)')
                 continue
             ret = ast.parse(r.outcome[1], mode='eval').body
-            if not (isinstance(ret, ast.Call) and isinstance(ret.func, ast.Attribute) and attr_chain(ret.func.value) == 'self'):
-                raise Undecided(f'{cls}.{dunder}: comparison result is not a call of a core method: {r.outcome[1]}')
-            cores.add(ret.func.attr)
-            actual = list(ret.args) + [k.value for k in ret.keywords if k.arg is not None]      # positional or keyword: same operands
-            if any(isinstance(a, ast.Starred) for a in ret.args) or any(k.arg is None for k in ret.keywords):
-                raise Undecided(f'{cls}.{dunder}: cannot bind the arguments of {r.outcome[1]}')
-            ops = [attr_chain(a) for a in actual if (attr_chain(a) or '').startswith('operator.')]
-            if not ops:
-                raise Undecided(f'{cls}.{dunder}: no operator.* function among the arguments of {r.outcome[1]}')
-            ctx.require(ops == [f'operator.{op}'], f'{cls}.{dunder} passes operator.{op} to the core', mod, f'{cls}.{dunder}', ret,
-                        f'{dunder} must compare with operator.{op}, passes {ops}')
-            firsts = [a for a in actual if not (attr_chain(a) or '').startswith('operator.')]
-            if len(firsts) != 1:
-                raise Undecided(f'{cls}.{dunder}: cannot tell the operand from the comparator in {r.outcome[1]}')
-            ctx.require('ARG1' in names_in(firsts[0]), f'{cls}.{dunder} passes the other operand', mod, f'{cls}.{dunder}',
-                        ret, f'{dunder} hands `{norm(firsts[0])}` to the core, not the other operand')
+            res = _bind_core_call(mod, cls, ret) if isinstance(ret, ast.Call) else None
+            if res is None:
+                raise Undecided(f'{cls}.{dunder}: comparison result is not a call of a core method/function: {r.outcome[1]}')
+            shown, cfn, is_method, bound = res
+            opsp = [pn for pn, x in bound.items() if (attr_chain(x) or '').startswith('operator.')]
+            oursp = [pn for pn, x in bound.items() if pn not in opsp and 'self' in names_in(x) and 'ARG1' not in names_in(x)]
+            theirsp = [pn for pn, x in bound.items() if pn not in opsp and 'ARG1' in names_in(x) and 'self' not in names_in(x)]
+            rest = [pn for pn in bound if pn not in opsp + oursp + theirsp]
+            if len(opsp) != 1 or rest or len(oursp) + len(theirsp) != 2:
+                raise Undecided(f'{cls}.{dunder}: cannot tell the operands from the comparator in {r.outcome[1]}')
+            if ctx is not None:
+                ctx.require(attr_chain(bound[opsp[0]]) == f'operator.{op}', f'{cls}.{dunder} passes operator.{op} to the core', mod, f'{cls}.{dunder}', ret,
+                            f'{dunder} must compare with operator.{op}, passes {attr_chain(bound[opsp[0]])}')
+            if len(theirsp) != 1:
+                # both operand slots receive the same operand: positive evidence that the other one is not compared
+                if ctx is not None:
+                    ctx.violation(mod, f'{cls}.{dunder}', ret, f'{dunder} hands {"self" if oursp else "the other operand"} to both operand slots of the core: {r.outcome[1]}')
+                continue
             good += 1
-            if not any(v for a, v in isinst):
+            infos[dunder] = CoreInfo(shown, cfn, is_method, oursp[0], theirsp[0], opsp[0], norm(bound[oursp[0]]), norm(bound[theirsp[0]]))
+            if ctx is not None and not any(v for a, v in r.conds.items() if a.kind == 'isinstance' and a.args[0] == 'ARG1'):
                 ctx.note(f'{cls}.{dunder}: a comparing row is not guarded by isinstance(other, {cls})')
-        if not good:
+        if not good and ctx is not None:
             ctx.violation(mod, f'{cls}.{dunder}', fn, f'{dunder} never compares')
-    ctx.require(len(cores) == 1, f'{cls}: one comparison core {sorted(cores)}', mod, cls, cls, f'ordering dunders use different cores: {sorted(cores)}')
+    if not infos:
+        raise Undecided(f'{cls}: no ordering dunder compares')
+    distinct = {(i.name, i.ours, i.theirs, i.comparator, i.ours_actual, i.theirs_actual) for i in infos.values()}
+    if ctx is not None:
+        ctx.require(len({i.name for i in infos.values()}) == 1, f'{cls}: one comparison core {sorted({i.name for i in infos.values()})}', mod, cls, cls,
+                    f'ordering dunders use different cores: {sorted({i.name for i in infos.values()})}')
+        if len({i.name for i in infos.values()}) == 1:
+            ctx.require(len(distinct) == 1, f'{cls}: the dunders hand the operands to the core in the same way', mod, cls, cls + ' operands',
+                        f'the ordering dunders bind the operands of the core differently: {sorted(distinct)}')
+    if len(distinct) != 1:
+        raise Undecided(f'{cls}: the ordering dunders do not call one core in one way: {sorted(distinct)}')
+    return next(iter(infos.values()))
+
+
+def one_core(ctx: RuleCtx, mod: Module, cls: str) -> T.Optional[str]:
+    """__lt__/__gt__/__le__/__ge__ delegate to one core method with operator.lt/gt/le/ge;
+    __eq__/__ne__/__hash__ read the same single field.  Returns the core method name."""
+    meths = mod.methods(cls)
+    info = core_info(mod, cls, ctx)
     # equality / hash are decided on the same single field (read from the decision tables, so `not self == other`,
     # a renamed parameter or an early `return NotImplemented` guard make no difference)
     if '__eq__' not in meths:
@@ -109,7 +182,7 @@ def one_core(ctx: RuleCtx, mod: Module, cls: str) -> T.Optional[str]:
                     f'__hash__ reads {sorted(fs)} but __eq__ compares {field}')
     if meths.get('__hash__') is None and '__hash__' in [s.targets[0].id for s in mod.cls(cls).body if isinstance(s, ast.Assign) and isinstance(s.targets[0], ast.Name)]:
         ctx.note(f'{cls}: unhashable by declaration')
-    return next(iter(cores)) if len(cores) == 1 else None
+    return info.name
 
 
 class _Side(ast.NodeTransformer):
@@ -140,50 +213,49 @@ class _Side(ast.NodeTransformer):
         return n
 
 
-def core_method(mod: Module, cls: str, core: str) -> T.Tuple[str, T.Any]:
-    """(method name, *normalised* function) of the comparison core: locals are resolved by their reaching
-    definition, so a hoisted `mine = self._v` reads as `self._v` again."""
-    meths = mod.methods(cls)
-    name = core if core in meths else f'_{cls}{core}' if f'_{cls}{core}' in meths else core
-    if name not in meths:
-        raise Undecided(f'{cls}.{core} not found')
-    return name, normalise(meths[name])
+def core_method(mod: Module, cls: str, core: str = '') -> T.Tuple[str, T.Any]:
+    """(name, *normalised* function) of the comparison core (found by role; `core` is only a label): locals are
+    resolved by their reaching definition, so a hoisted `mine = self._v` reads as `self._v` again."""
+    info = core_info(mod, cls)
+    return info.name, normalise(info.fn)
 
 
-def zip_operands(mod: Module, cls: str, core: str) -> T.Tuple[str, str, str]:
+def _suffix(text: str, root: str) -> T.Optional[str]:
+    return text[len(root):] if text == root or text.startswith(root + '.') else None
+
+
+def zip_operands(mod: Module, cls: str, core: str = '') -> T.Tuple[str, str, str]:
     """(own field chain `self.<field>`, text of the other operand, name of the `other` parameter) of the
-    component loop `for a, b in zip(<own>, <theirs>)` of the core, read on the normalised core."""
-    name, fn = core_method(mod, cls, core)
-    params = [a.arg for a in fn.args.args]
-    if len(params) != 3:
-        raise Undecided(f'{cls}.{name}: expected (self, other, comparator)')
-    other = params[1]
+    component loop `for a, b in zip(<own>, <theirs>)` of the core, read on the normalised core.  When the core takes
+    the component sequences themselves (module-level function called with `self._v, other._v`), the own chain is
+    given as the dunders pass it."""
+    info = core_info(mod, cls)
+    fn = normalise(info.fn)
     loops = [s for s in fn.body if isinstance(s, ast.For)]
     if len(loops) != 1 or not (isinstance(loops[0].iter, ast.Call) and norm(loops[0].iter.func) == 'zip' and len(loops[0].iter.args) == 2):
-        raise Undecided(f'{cls}.{name}: component loop is not `for a, b in zip(x, y)`')
-    own = [attr_chain(a) for a in loops[0].iter.args if 'self' in names_in(a) and other not in names_in(a)]
-    theirs = [norm(a) for a in loops[0].iter.args if other in names_in(a) and 'self' not in names_in(a)]
-    if len(own) != 1 or own[0] is None or not own[0].startswith('self.') or len(theirs) != 1:
-        raise Undecided(f'{cls}.{name}: cannot attribute the zip operands')
-    return own[0], theirs[0], other
+        raise Undecided(f'{cls}.{info.name}: component loop is not `for a, b in zip(x, y)`')
+    own = [norm(a) for a in loops[0].iter.args if info.ours in names_in(a) and info.theirs not in names_in(a)]
+    theirs = [norm(a) for a in loops[0].iter.args if info.theirs in names_in(a) and info.ours not in names_in(a)]
+    if len(own) != 1 or len(theirs) != 1 or _suffix(own[0], info.ours) is None:
+        raise Undecided(f'{cls}.{info.name}: cannot attribute the zip operands')
+    own_chain = info.ours_actual + (_suffix(own[0], info.ours) or '')
+    if not own_chain.startswith('self.'):
+        raise Undecided(f'{cls}.{info.name}: cannot attribute the zip operands')
+    return own_chain, theirs[0], info.theirs
 
 
-def ranking_keys(ctx: RuleCtx, mod: Module, cls: str, core: str) -> T.List[T.Tuple[str, str]]:
-    """Extract [(projection, direction)] from the core comparison method.
+def ranking_keys(ctx: RuleCtx, mod: Module, cls: str, core: str = '') -> T.List[T.Tuple[str, str]]:
+    """Extract [(projection, direction)] from the comparison core (method or module-level function).
 
     Every return must be comparator(f(a), f(b)) with the same projection f on both
     sides; (ours, theirs) = ascending, (theirs, ours) = descending."""
-    meths = mod.methods(cls)
-    name = core if core in meths else f'_{cls}{core}' if f'_{cls}{core}' in meths else core
-    if name not in meths:
-        raise Undecided(f'{cls}.{core} not found')
+    info = core_info(mod, cls)
+    name = info.name
     # locals are resolved by their reaching definition first (hoisted `a = self._v`, renamed flags)
-    fn = normalise(meths[name])
-    qn = f'{cls}.{name}'
-    params = [a.arg for a in fn.args.args]
-    if len(params) != 3:
-        raise Undecided(f'{qn}: expected (self, other, comparator)')
-    other, comparator = params[1], params[2]
+    fn = normalise(info.fn)
+    qn = f'{cls}.{name}' if info.is_method else name
+    argname = {k: v.id for k, v in tables._param_map(fn).items()}       # type: ignore[attr-defined]
+    ours_p, other, comparator = info.ours, info.theirs, info.comparator
     loops = [s for s in fn.body if isinstance(s, ast.For)]
     if len(loops) != 1:
         raise Undecided(f'{qn}: expected exactly one component loop')
@@ -191,20 +263,30 @@ def ranking_keys(ctx: RuleCtx, mod: Module, cls: str, core: str) -> T.List[T.Tup
     it = loop.iter
     if not (isinstance(it, ast.Call) and norm(it.func) == 'zip' and len(it.args) == 2 and isinstance(loop.target, ast.Tuple) and len(loop.target.elts) == 2):
         raise Undecided(f'{qn}: component loop is not `for a, b in zip(x, y)`')
-    sides: T.Dict[str, str] = {'self': 'ours', other: 'theirs', 'ARG1': 'theirs'}
+    sides: T.Dict[str, str] = {ours_p: 'ours', other: 'theirs'}
+    for pn, sd in ((ours_p, 'ours'), (other, 'theirs')):
+        if pn in argname:
+            sides[argname[pn]] = sd
+    eff: T.Dict[str, str] = {}
     for arg, tgt in zip(it.args, loop.target.elts):
         rd = names_in(arg)
-        if 'self' in rd and other not in rd:
+        if ours_p in rd and other not in rd:
             sides['=' + tgt.id] = 'ours'      # type: ignore[attr-defined]
-        elif other in rd and 'self' not in rd:
+            eff['ours'] = (_suffix(info.ours_actual, 'self') or '') + (_suffix(norm(arg), ours_p) if _suffix(norm(arg), ours_p) is not None else '?' + norm(arg))
+        elif other in rd and ours_p not in rd:
             sides['=' + tgt.id] = 'theirs'    # type: ignore[attr-defined]
+            eff['theirs'] = (_suffix(info.theirs_actual, 'ARG1') or '') + (_suffix(norm(arg), other) if _suffix(norm(arg), other) is not None else '?' + norm(arg))
         else:
             raise Undecided(f'{qn}: cannot attribute zip argument {short(arg)} to one operand')
     ctx.require({sides['=' + t.id] for t in loop.target.elts} == {'ours', 'theirs'}, f'{qn}: loop pairs our components with theirs', mod, qn, loop.iter,  # type: ignore[attr-defined]
                 'the component loop does not pair the two operands')
+    if set(eff) == {'ours', 'theirs'} and '?' not in eff['ours'] + eff['theirs']:
+        # what reaches the loop is <self><x> on one side and <other><y> on the other (through the dunders' arguments): x must be y
+        ctx.require(eff['ours'] == eff['theirs'], f'{qn}: both operands contribute the same field ({eff["ours"] or "themselves"})', mod, qn, loop.iter,
+                    f'the loop pairs self{eff["ours"]} with other{eff["theirs"]}: the two operands are not read through the same field')
 
     def key_of(call: ast.AST, where: str) -> T.Optional[T.Tuple[str, str]]:
-        if not (isinstance(call, ast.Call) and norm(call.func) in (comparator, 'ARG2') and len(call.args) == 2):
+        if not (isinstance(call, ast.Call) and norm(call.func) in (comparator, argname.get(comparator)) and len(call.args) == 2 and not call.keywords):
             raise Undecided(f'{qn}: {where}: cannot read the result {short(call)} as comparator(x, y)')
         a, b = copy.deepcopy(call.args[0]), copy.deepcopy(call.args[1])
         sa, sb = _Side(sides), _Side(sides)
